@@ -61,7 +61,7 @@ def build_specs():
         'V': v_ + [Row('other subtag', rest(v_), 'yield'), Row('END', None, 'yield')],
     }
     # ---- A.2 extension dispatcher (one state; the examined token has already been taken with `next`)
-    b = [Row('empty subtag', EMPTY, 'either'), Row("singleton 'u'", U1, 'call', sub='UnicodeExtensionList', slot='UnicodeExtensionList'),
+    b = [Row('empty subtag', EMPTY, 'either', no_early_ok=True), Row("singleton 'u'", U1, 'call', sub='UnicodeExtensionList', slot='UnicodeExtensionList'),
          Row("singleton 't'", T1, 'call', sub='TransformExtensionList', slot='TransformExtensionList'),
          Row("singleton 'x'", X1, 'call', sub='PrivateExtensionList', slot='PrivateExtensionList', last=True),
          Row('other alphanumeric singleton', OTHER1, 'either'), Row('non-alphanumeric singleton', NONALNUM1, 'reject'),
@@ -414,6 +414,9 @@ class TableCheck:
                     self.add('PARSE-TABLE', q, r.name, 'a malformed subtag neither ends the parse nor is rejected', w, sp)
                 return None
             if oc == 'either':
+                if kw.get('no_early_ok') and end[0] == 'ok':
+                    # "accepted as if the emptiness were absent": an empty subtag may be skipped or rejected, but the parse must not stop there
+                    self.add('PARSE-NODROP', q, r.name, 'the parse ends successfully at an empty subtag: whatever follows it is silently ignored', w, sp)
                 if end[0] == 'head':
                     return q
                 return None
